@@ -2,6 +2,7 @@ import NomtModel.Store.ImgCheck
 import NomtModel.Store.ImgLemmas
 import NomtModel.Store.PageIdLemmas
 import NomtModel.Store.LeafRt
+import NomtModel.Store.BranchRt
 import NomtModel.Store.ConstantsFormats
 import NomtModel.Store.ConstantsAlloc
 /-!
@@ -126,6 +127,43 @@ example : decodeLeaf (encodeLeaf sampleLeaf (List.replicate 3945 0xAA)) = .ok sa
 /-- the guard is needed: an inline value longer than `MAX_LEAF_VALUE_SIZE` is refused -/
 example : leafOK [⟨(List.replicate 32 1).toByteArray, false, (List.replicate 1333 0).toByteArray⟩]
     (List.replicate 2727 0) = false := by decide +kernel
+
+/-! ## branch pages -/
+
+/-- T16.rt (branch page, with prefix compression): the mirror of `set_bbn_pn` +
+`BranchNodeBuilder::new(n, prefix_compressed, prefix_len)` + `push(key, separator_len, pn)` × n
+(`bbn_pn | n | prefix_compressed | prefix_len | cells u16[n] | Msb0 bit vector: the first
+`prefix_len` bits of the first key, then for separator `i` the bits `[prefix_len, separator_len)` of
+its key if `i < prefix_compressed` (nothing if `separator_len ≤ prefix_len`) and the bits
+`[0, separator_len)` otherwise | whatever bits the page held | node pointers u32[n]`) followed by
+`decodeBranch` returns the header values and, for every separator, **the key itself** (as a 256-bit
+number) with its node pointer — under the decidable guard `branchOK`: `n ≥ 1`, `bbn_pn, pn < 2^32`,
+`prefix_compressed ≤ n`, `prefix_len ≤ 256`, every key `< 2^256` with only zero bits after
+`separator_len ≤ 256`, the first `prefix_compressed` keys agree with the first key on the first
+`prefix_len` bits, and cells + bits + node pointers fill the page exactly -/
+theorem T16_rt_branch (x : BranchIn) (hok : branchOK x = true) :
+    (encodeBranch x).size = PAGE ∧
+    decodeBranch (encodeBranch x) = .ok
+      { bbnPn := x.bbnPn, prefixLen := x.pl, prefixCompressed := x.pc,
+        seps := x.items.map (fun it => (it.key, it.pn)) } :=
+  ⟨size_encodeBranch x (branchOK_facts hok), branch_rt x hok⟩
+
+/-- prefix `1010`, two compressed separators — `101` (shorter than the prefix: nothing stored) and
+`101011` (stores `11`) — and an uncompressed one `1111`; the rest of the bit vector is ones -/
+def sampleBranch : BranchIn :=
+  { bbnPn := 7, pc := 2, pl := 4,
+    items := [⟨0xA0 * 2 ^ 248, 3, 11⟩, ⟨0xAC * 2 ^ 248, 6, 12⟩, ⟨0xF0 * 2 ^ 248, 4, 13⟩],
+    fill := List.replicate 32534 true }
+example : branchOK sampleBranch = true := by decide +kernel
+example : decodeBranch (encodeBranch sampleBranch) = .ok
+    { bbnPn := 7, prefixLen := 4, prefixCompressed := 2,
+      seps := [(0xA0 * 2 ^ 248, 11), (0xAC * 2 ^ 248, 12), (0xF0 * 2 ^ 248, 13)] } :=
+  (T16_rt_branch sampleBranch (by decide +kernel)).2
+/-- the guard is needed: a compressed key that does not start with the prefix is refused, and so is a
+key with a one bit after its separator length -/
+example : branchOK { sampleBranch with items := [⟨0xA0 * 2 ^ 248, 3, 11⟩, ⟨0xBC * 2 ^ 248, 6, 12⟩, ⟨0xF0 * 2 ^ 248, 4, 13⟩] } = false
+    ∧ branchOK { sampleBranch with items := [⟨0xA0 * 2 ^ 248, 2, 11⟩, ⟨0xAC * 2 ^ 248, 6, 12⟩, ⟨0xF0 * 2 ^ 248, 4, 13⟩] } = false := by
+  decide +kernel
 
 /-! ## the decoders' constants are the constants of the Rust source
 
